@@ -762,17 +762,6 @@ def parseOkp (m : Obj) (key : Key) : PO Key := do
   | some c => parseOkpCurve c m key
   | Option.none => PO.fail "crv"
 
-/-- `encodeEd25519Key` / `encodeEd448Key`: no validation; `priv[:SeedSize]` panics when short -/
-def encodeEd (c : Okp) (m : Obj) (priv : Option Bytes) (pub : Bytes) : PO Obj := do
-  let m := oset m "kty" (.str jwa.OKP)
-  let m := oset m "crv" (.str c.crv)
-  let m ← setBytes m "x" pub
-  match priv with
-  | Option.none => pure m
-  | some p =>
-    if p.length < c.len then PO.panic "jwk.encodeEdKey.seed-slice"
-    else setBytes m "d" (p.take c.len)
-
 /-- `encodeX25519Key` / `encodeX448Key`: validated -/
 def encodeX (c : Okp) (m : Obj) (priv : Option Bytes) (pub : Bytes) : PO Obj := do
   validateOkpPub c.len pub
@@ -784,6 +773,11 @@ def encodeX (c : Okp) (m : Obj) (priv : Option Bytes) (pub : Bytes) : PO Obj := 
   | some p => do
     validateOkpPriv c.derive c.len c.len p
     setBytes m "d" (p.take c.len)
+
+/-- `encodeEd25519Key` / `encodeEd448Key`: since d679531 exactly the shape of the X25519/X448 encoders — the public key
+    length and (for a private key) length and seed → public derivation are validated before anything is emitted; the
+    former panic site `priv[:SeedSize]` of a short key is now the "size" error -/
+def encodeEd (c : Okp) (m : Obj) (priv : Option Bytes) (pub : Bytes) : PO Obj := encodeX c m priv pub
 
 /-! ## crypto/ecdh keys (jwk/jwk.go:681-711) -/
 
